@@ -39,23 +39,33 @@ static inline unsigned long iora_stoul(iora_sv s, void *idx, int base)
   return G_stoul_ret;
 }
 #else
+/* The environment stub proper has scalar parameters only (length, first two bytes, offset of the argument inside the
+ * request buffer): a contract over scalars costs nothing, a contract that dereferences the string in a dozen clauses
+ * multiplies the formula (measured). The inline wrapper reads the two bytes. */
 #define ST_R __CPROVER_return_value
-unsigned long iora_stoul(iora_sv s, void *idx, int base)
-  __CPROVER_requires(IORA_TRUE && base == 16 && idx == NULL && iora_exc == EXC_NONE)
+unsigned long iora_stoul_env(size_t n, char c0, char c1, size_t off, int base)
+  __CPROVER_requires(IORA_TRUE && base == 16 && iora_exc == EXC_NONE)
   __CPROVER_assigns(iora_exc, G_stoul_calls, G_stoul_off, G_stoul_n, G_stoul_ret, G_stoul_exc)
   __CPROVER_ensures(iora_exc == EXC_NONE || iora_exc == EXC_invalid_argument || iora_exc == EXC_out_of_range)
   /* nothing to convert */
-  __CPROVER_ensures(s.n == 0 ==> iora_exc == EXC_invalid_argument)
-  __CPROVER_ensures((s.n > 0 && !HX_SPACE(s.p[0]) && !HX_SIGN(s.p[0]) && !HX_IS(s.p[0])) ==> iora_exc == EXC_invalid_argument)
+  __CPROVER_ensures(n == 0 ==> iora_exc == EXC_invalid_argument)
+  __CPROVER_ensures((n > 0 && !HX_SPACE(c0) && !HX_SIGN(c0) && !HX_IS(c0)) ==> iora_exc == EXC_invalid_argument)
   /* a leading digit always converts; up to 16 digits cannot overflow */
-  __CPROVER_ensures((s.n > 0 && HX_IS(s.p[0])) ==> iora_exc != EXC_invalid_argument)
-  __CPROVER_ensures((s.n > 0 && s.n <= 16 && HX_IS(s.p[0])) ==> iora_exc == EXC_NONE)
+  __CPROVER_ensures((n > 0 && HX_IS(c0)) ==> iora_exc != EXC_invalid_argument)
+  __CPROVER_ensures((n > 0 && n <= 16 && HX_IS(c0)) ==> iora_exc == EXC_NONE)
   /* exact value of short digit strings; trailing junk after the digits is ignored */
-  __CPROVER_ensures((s.n == 1 && HX_IS(s.p[0])) ==> ST_R == HX_V(s.p[0]))
-  __CPROVER_ensures((s.n >= 2 && HX_IS(s.p[0]) && !HX_IS(s.p[1]) && !(s.p[0] == (char)48 && HX_X(s.p[1]))) ==> ST_R == HX_V(s.p[0]))
-  __CPROVER_ensures((s.n == 2 && HX_IS(s.p[0]) && HX_IS(s.p[1])) ==> ST_R == ((HX_V(s.p[0]) << 4) | HX_V(s.p[1])))
+  __CPROVER_ensures((n == 1 && HX_IS(c0)) ==> ST_R == HX_V(c0))
+  __CPROVER_ensures((n >= 2 && HX_IS(c0) && !HX_IS(c1) && !(c0 == (char)48 && HX_X(c1))) ==> ST_R == HX_V(c0))
+  __CPROVER_ensures((n == 2 && HX_IS(c0) && HX_IS(c1)) ==> ST_R == ((HX_V(c0) << 4) | HX_V(c1)))
   /* ghost record */
-  __CPROVER_ensures(G_stoul_calls == __CPROVER_old(G_stoul_calls) + 1 && G_stoul_off == (size_t)__CPROVER_POINTER_OFFSET(s.p) && G_stoul_n == s.n)
+  __CPROVER_ensures(G_stoul_calls == __CPROVER_old(G_stoul_calls) + 1 && G_stoul_off == off && G_stoul_n == n)
   __CPROVER_ensures(G_stoul_exc == iora_exc && (iora_exc == EXC_NONE ==> G_stoul_ret == ST_R));
+static inline unsigned long iora_stoul(iora_sv s, void *idx, int base)
+{
+  IORA_ASSERT(idx == NULL, "stoul stub models idx == nullptr only");
+  char c0 = s.n > 0 ? s.p[0] : (char)0;
+  char c1 = s.n > 1 ? s.p[1] : (char)0;
+  return iora_stoul_env(s.n, c0, c1, (size_t)__CPROVER_POINTER_OFFSET(s.p), base);
+}
 #endif
 #endif
